@@ -9,6 +9,7 @@ import Blue.Proofs.Kvs
 import Blue.Proofs.ScanLive
 import Blue.Proofs.StoreHistScan
 import Blue.Proofs.StoreHistCursor
+import Blue.Proofs.StoreHistWindow
 /-! # Property C03 — range scans return exactly the live keys in range, in order, matching reads
 
 Property theorems only.  The scan a store performs is the cursor stack
@@ -51,8 +52,13 @@ merged lists) are no longer hypotheses: `history_children_are_tables` derives th
 invariant (I1, I2).  What is STILL a hypothesis there: every component's cursor behaves as the
 reference cursor over that component's sorted version list (C10 table cursors, C11 `bounds_over`,
 C17 skiplist cursor, and the correspondence check that the dumped components are what the cursors
-read); and sequentiality — scans are opened between completed operations (the flush window and a
-scan concurrent with a write are not histories of `Blue.StoreHist`). -/
+read); and sequentiality — scans are opened between completed operations (a scan concurrent with
+a write is not a history of `Blue.StoreHist`).  The FLUSH WINDOW is covered at history level by the
+block `StoreHistWindow` at the end (`Blue.StoreHistWindow`: `flush` split into `flushInstall` /
+`flushClear`, writes and compactions in between): `window_children_are_tables_with_dups` derives the
+`Family` / `FamilyW` hypotheses for window states (where `no_dups` is false), `window_scan_spec` says
+the specification list is `specScan` of the collapsed history, `history_scan_cursor_window` is
+`history_scan_cursor` for histories that may end inside the window. -/
 namespace Blue.Props.C03
 open Blue.Spec Blue.Cursor
 
@@ -751,6 +757,186 @@ end HistCur
 end HistoryCursor
 -- END StoreHistCursor
 
+-- BEGIN StoreHistWindow
+/-! ## the FLUSH WINDOW at history level (Model/StoreHistWindow.lean, Proofs/StoreHistWindow.lean)
+
+`Blue.StoreHist.flush` is one step; `_memtable_thread` installs the table (`_ingest`, kvs/mod.rs
+line 310) and clears `imm` later (line 322), and a `range_scan` in between has `imm` AND the tree's
+copy of its versions among its children.  `Blue.StoreHistWindow` splits the step (`flushInstall`,
+`flushClear`; writes and compactions may fall between, a rollover cannot).  Here: in EVERY reachable
+state of the split alphabet the `Family` / `FamilyW` hypotheses of `store_scan_spec_dups` hold
+(`window_children_are_tables_with_dups` — `ChildrenAreTables` without its clause `no_dups`, which
+is false in a window state), the specification list (identical copies once) is `specScan` of the
+collapsed history (`window_scan_spec`), and the cursor theorem composes (`history_scan_cursor_window`).
+`collapse` maps `flushInstall ↦ flush`, `flushClear ↦ ∅`, keeps every write and compaction.
+STILL HYPOTHESES: as in `history_scan_cursor` (component cursors behave as their tables), and a scan
+concurrent with a WRITE (between `seq_no += 1` and the publication) is not a history of this model
+either. -/
+section HistoryWindow
+open Blue.StoreHist Blue.Kvs Blue.StoreHistWindow
+
+/-- **window_children_are_tables_with_dups**: derived from the window invariant (reached states:
+    `window_invariant`) -/
+theorem window_children_are_tables_with_dups (ops : List WOp) (hv : ValidW initW ops) :
+    ChildrenAreTablesDups (runW initW ops).h.st :=
+  Blue.StoreHistWindow.window_children_are_tables_with_dups (Blue.StoreHistWindow.window_invariant ops hv)
+
+/-- **window_scan_spec** -/
+theorem window_scan_spec (ops : List WOp) (hv : ValidW initW ops) (t : Nat) (ht : (runW initW ops).h.vis ≤ t)
+    (sb eb : Bound Nat) :
+    ((dedupAdj ((Blue.StoreHist.storeM (runW initW ops).h.st).map (·.1))).filter
+        (isLive (dedupAdj ((Blue.StoreHist.storeM (runW initW ops).h.st).map (·.1))) t (tombOf (runW initW ops).h))).filter
+        (inRange Blue.StoreHist.natLt sb eb)
+      = specScan (collapse initW ops) sb eb :=
+  Blue.StoreHistWindow.window_scan_spec ops hv t ht sb eb
+
+/-- the collapsed history: same reached state up to the duplicate child, valid, same specification -/
+theorem window_collapse (ops : List WOp) (hv : ValidW initW ops) :
+    shadow (runW initW ops) = run init (collapse initW ops) ∧ Valid init (collapse initW ops)
+      ∧ specW ops = spec (collapse initW ops) :=
+  Blue.StoreHistWindow.window_collapse ops hv
+
+/-- **history_scan_cursor_window** -/
+theorem history_scan_cursor_window (ops : List WOp) (hv : ValidW initW ops) (t : Nat)
+    (ht : (runW initW ops).h.vis ≤ t)
+    (sb eb : Bound Nat) (n : Nat) (hn : stateSize (runW initW ops).h.st + 2 ≤ n)
+    {Cm S : Cur (Ver Nat)} (mems : List (Cm.σ × List (Ver Nat)))
+    (levels : List (List (S.σ × List (Ver Nat))))
+    (hmemT : mems.map (·.2) = memTables (runW initW ops).h.st)
+    (hlevT : levels.map (·.map (·.2)) = treeTables (runW initW ops).h.st)
+    (hmems : ∀ m ∈ mems, BehEq (SeekAdm Blue.StoreHist.natLt) Cm m.1 (RefCur (Ver Nat)) ⟨m.2, 0⟩)
+    (hfiles : ∀ lvl ∈ levels, ∀ f ∈ lvl, BehEq (SeekAdm Blue.StoreHist.natLt) S f.1 (RefCur (Ver Nat)) ⟨f.2, 0⟩) :
+    BehEq (SeekAdm Blue.StoreHist.natLt)
+      (BoundsC.cur (PruningC.cur (MergingC.cur (Cur.sum Cm (TreeCur Blue.StoreHist.natLt S)) (vlt Blue.StoreHist.natLt))
+        (pcfg t (tombOf (runW initW ops).h)) n) (bcfg Blue.StoreHist.natLt sb eb) n)
+      (BoundsC.new (PruningC.cur (MergingC.cur (Cur.sum Cm (TreeCur Blue.StoreHist.natLt S)) (vlt Blue.StoreHist.natLt))
+          (pcfg t (tombOf (runW initW ops).h)) n) (bcfg Blue.StoreHist.natLt sb eb)
+        (PruningC.new (MergingC.cur (Cur.sum Cm (TreeCur Blue.StoreHist.natLt S)) (vlt Blue.StoreHist.natLt))
+          (MergingC.new (Cur.sum Cm (TreeCur Blue.StoreHist.natLt S)) (vlt Blue.StoreHist.natLt) (storeKids mems levels))))
+      (RefCur (Ver Nat)) ⟨specScan (collapse initW ops) sb eb, 0⟩ :=
+  Blue.StoreHistWindow.history_scan_cursor_window ops hv t ht sb eb n hn mems levels hmemT hlevT hmems hfiles
+
+/-! non-vacuity: a batch, a delete of key 5, rollover, `flushInstall`; then INSIDE the window an
+    overwrite of key 7 and a compaction that moves the just-installed file to level 1; the scan is
+    made there (`opsW` ends inside the window: `imm` and the level-1 file hold the same four
+    versions); `flushClear` last (`opsAll`). -/
+namespace WinHist
+
+def file : KFile := ⟨5, 7, 2, [(5, 2), (5, 1), (7, 1), (6, 1)]⟩
+
+def opsW : List WOp :=
+  [.write [(5, some 50), (7, some 70), (6, some 60)], .write [(5, none)], .rollover, .flushInstall,
+   .write [(7, some 71)], .compact [] [[file]]]
+
+def opsAll : List WOp := opsW ++ [.flushClear]
+
+theorem before_compaction : (runW initW (opsW.take 5)).h.st
+    = ⟨[(7, 4)], some [(5, 2), (5, 1), (7, 1), (6, 1)], [file], []⟩ := by rfl
+
+theorem compaction_ok : CompactionOk (runW initW (opsW.take 5)).h.st
+    { (runW initW (opsW.take 5)).h.st with l0 := [], levels := [[file]] } := by
+  rw [before_compaction]
+  refine .mk [(true, [(5, 2), (5, 1), (7, 1), (6, 1)])] [] [[(5, 2), (5, 1), (7, 1), (6, 1)]] [] [] rfl rfl ?_
+    (closedB_sound _ (by decide)) (fun e => Iff.rfl) (by decide) rfl
+    (fun c hc => by cases hc) ?_ (fun g hg => by cases hg) (i1_of_check _ (by decide))
+  · unfold treeComps l0Comps
+    rw [l0Order_cons_top _ _ (by decide), l0Order_nil]
+    rfl
+  · unfold treeComps l0Comps
+    show (l0Order []).map _ ++ _ = _
+    rw [l0Order_nil]
+    rfl
+
+theorem opsW_valid : ValidW initW opsW :=
+  ⟨trivial, trivial, trivial, trivial, trivial, compaction_ok, trivial⟩
+
+theorem opsAll_valid : ValidW initW opsAll :=
+  ⟨trivial, trivial, trivial, trivial, trivial, compaction_ok, trivial, trivial⟩
+
+/-- the reached WINDOW state: `imm` is still there and level 1 holds the same versions -/
+theorem in_window : (runW initW opsW).h.st
+      = ⟨[(7, 4)], some [(5, 2), (5, 1), (7, 1), (6, 1)], [], [[file]]⟩
+    ∧ (runW initW opsW).win = true ∧ (runW initW opsW).h.vis = 4 := ⟨by rfl, by rfl, by rfl⟩
+
+/-- … and after the clear -/
+theorem after_clear : (runW initW opsAll).h.st = ⟨[(7, 4)], none, [], [[file]]⟩
+    ∧ (runW initW opsAll).win = false := ⟨by rfl, by rfl⟩
+
+/-- `no_dups` of `ChildrenAreTables` FAILS in the window state: `5@2` is in two children -/
+example : ¬ (memTables (runW initW opsW).h.st ++ treeTabs (runW initW opsW).h.st).flatten.Nodup := by
+  rw [in_window.1]; decide
+
+/-- the collapsed history and the specification list, by evaluation: key 5 deleted, key 7 at its
+    overwrite made INSIDE the window -/
+theorem collapsed : collapse initW opsW
+    = [.write [(5, some 50), (7, some 70), (6, some 60)], .write [(5, none)], .rollover, .flush,
+       .write [(7, some 71)], .compact [] [[file]]] := by rfl
+
+theorem spec_list : specScan (collapse initW opsW) .unbounded .unbounded = [(6, 1), (7, 4)]
+    ∧ specScan (collapse initW opsW) (.included 5) (.excluded 7) = [(6, 1)] := by
+  rw [collapsed]; exact ⟨by decide, by decide⟩
+
+/-- the window state's children: memtable, IMMUTABLE MEMTABLE, and the level-1 file with the same
+    table -/
+def mems : List ((RefCur (Ver Nat)).σ × List (Ver Nat)) :=
+  [fileOf [(7, 4)], fileOf [(5, 2), (5, 1), (6, 1), (7, 1)]]
+def levels : List (List ((RefCur (Ver Nat)).σ × List (Ver Nat))) :=
+  [[fileOf [(5, 2), (5, 1), (6, 1), (7, 1)]]]
+
+theorem kids_are_the_state's : mems.map (·.2) = memTables (runW initW opsW).h.st
+    ∧ levels.map (·.map (·.2)) = treeTables (runW initW opsW).h.st := by
+  rw [in_window.1]; exact ⟨by decide, by decide⟩
+
+/-- `history_scan_cursor_window` instantiated on the window state -/
+example :
+    BehEq (SeekAdm Blue.StoreHist.natLt)
+      (BoundsC.cur (PruningC.cur (MergingC.cur (Cur.sum (RefCur (Ver Nat)) (TreeCur Blue.StoreHist.natLt (RefCur (Ver Nat))))
+        (vlt Blue.StoreHist.natLt)) (pcfg 4 (tombOf (runW initW opsW).h)) 11) (bcfg Blue.StoreHist.natLt .unbounded .unbounded) 11)
+      (BoundsC.new (PruningC.cur (MergingC.cur (Cur.sum (RefCur (Ver Nat)) (TreeCur Blue.StoreHist.natLt (RefCur (Ver Nat))))
+          (vlt Blue.StoreHist.natLt)) (pcfg 4 (tombOf (runW initW opsW).h)) 11) (bcfg Blue.StoreHist.natLt .unbounded .unbounded)
+        (PruningC.new (MergingC.cur (Cur.sum (RefCur (Ver Nat)) (TreeCur Blue.StoreHist.natLt (RefCur (Ver Nat)))) (vlt Blue.StoreHist.natLt))
+          (MergingC.new (Cur.sum (RefCur (Ver Nat)) (TreeCur Blue.StoreHist.natLt (RefCur (Ver Nat)))) (vlt Blue.StoreHist.natLt)
+            (storeKids mems levels))))
+      (RefCur (Ver Nat)) ⟨[(6, 1), (7, 4)], 0⟩ := by
+  have h := Blue.Props.C03.history_scan_cursor_window opsW opsW_valid 4 (by rw [in_window.2.2]; exact Nat.le_refl _)
+    .unbounded .unbounded 11 (by rw [in_window.1]; decide) mems levels kids_are_the_state's.1
+    kids_are_the_state's.2
+    (by intro m hm; simp only [mems, List.mem_cons, List.not_mem_nil, or_false] at hm
+        rcases hm with rfl | rfl <;> exact fun _ _ => rfl)
+    (by intro lvl hl x hx
+        simp only [levels, List.mem_cons, List.not_mem_nil, or_false] at hl
+        subst hl
+        simp only [List.mem_cons, List.not_mem_nil, or_false] at hx
+        subst hx; exact fun _ _ => rfl)
+  rw [spec_list.1] at h
+  exact h
+
+/-- the list-level statement on the window state, both sides by evaluation -/
+example : ((dedupAdj ((Blue.StoreHist.storeM (runW initW opsW).h.st).map (·.1))).filter
+        (isLive (dedupAdj ((Blue.StoreHist.storeM (runW initW opsW).h.st).map (·.1))) 4 (tombOf (runW initW opsW).h))).filter
+        (inRange Blue.StoreHist.natLt .unbounded .unbounded) = [(6, 1), (7, 4)] := by
+  rw [Blue.Props.C03.window_scan_spec opsW opsW_valid 4 (by rw [in_window.2.2]; exact Nat.le_refl _), spec_list.1]
+
+/-- the point read inside the window (C01 `history_refines_window`), by evaluation of `kvsLoad` on
+    the window state: key 5 is answered by `imm` (its tombstone `5@2`), key 7 by the memtable, key 6
+    by `imm` — and the same after the clear, where the level-1 file answers -/
+example : kvsLoad (runW initW opsW).h.st 5 4 = some (5, 2) ∧ kvsLoad (runW initW opsW).h.st 7 4 = some (7, 4)
+    ∧ kvsLoad (runW initW opsW).h.st 6 4 = some (6, 1)
+    ∧ kvsLoad (runW initW opsAll).h.st 5 4 = some (5, 2) ∧ kvsLoad (runW initW opsAll).h.st 6 4 = some (6, 1) := by
+  rw [in_window.1, after_clear.1]
+  refine ⟨by decide +kernel, by decide +kernel, by decide +kernel, by decide +kernel, by decide +kernel⟩
+
+/-- the remaining two theorems on this history -/
+example : ChildrenAreTablesDups (runW initW opsW).h.st :=
+  Blue.Props.C03.window_children_are_tables_with_dups opsW opsW_valid
+
+example : shadow (runW initW opsW) = run init (collapse initW opsW) ∧ Valid init (collapse initW opsW) :=
+  ⟨(Blue.Props.C03.window_collapse opsW opsW_valid).1, (Blue.Props.C03.window_collapse opsW opsW_valid).2.1⟩
+
+end WinHist
+end HistoryWindow
+-- END StoreHistWindow
+
 end Blue.Props.C03
 
 #print axioms Blue.Props.C03.scan_spec
@@ -780,6 +966,11 @@ end Blue.Props.C03
 #print axioms Blue.Props.C03.range_prefilter_keeps_in_range_files
 #print axioms Blue.Props.C03.history_scan_cursor_in_range
 #print axioms Blue.Props.C03.history_scan_matches_point_reads
+#print axioms Blue.Props.C03.window_children_are_tables_with_dups
+#print axioms Blue.Props.C03.window_scan_spec
+#print axioms Blue.Props.C03.window_collapse
+#print axioms Blue.Props.C03.history_scan_cursor_window
+#print axioms Blue.Props.C03.WinHist.opsW_valid
 #print axioms Blue.Cursor.scan_stack
 #print axioms Blue.Spec.sorted_ext
 #print axioms Blue.Cursor.level_over
